@@ -155,7 +155,8 @@ where
     }
 
     async fn client_shutdown(&mut self, id: ConnectionId) -> Result<(), ConnectionError<T::Error>> {
-        self.send_broker_shutdown(id).await?;
+        // This fails only when the broker has shut down. The client is answered regardless.
+        let _ = self.send_broker_shutdown(id).await;
         self.send_message(Shutdown).await?;
         self.drain_broker_recv().await;
 
